@@ -1,3 +1,5 @@
+//go:build !verifsched
+
 package props
 
 import (
@@ -546,13 +548,6 @@ func compress(log []string) []string {
 		i = j
 	}
 	return out
-}
-
-func trunc(s string, n int) string {
-	if len(s) > n {
-		return s[:n] + "..."
-	}
-	return s
 }
 
 var _ = x509.Certificate{}
